@@ -318,6 +318,8 @@ def _store_request(cls, consts):
         raise TranslatorError("on_store_request: conditional outside the recognised guard prefix")
     max_age = None
     stores = responds = False
+    storage_names = {_u(x.targets[0]) for x in tail if isinstance(x, ast.Assign) and len(x.targets) == 1
+                     and _u(x.value).startswith("self.get_storage(")}
     for s in tail:
         if isinstance(s, ast.Assign) and _u(s.targets[0]) == "max_age":
             max_age = _int_expr(s.value, consts, "num_closer")
@@ -328,7 +330,8 @@ def _store_request(cls, consts):
                 c = inner[0].value
                 if _u(c.func) == "self.add_value" and len(c.args) == 4 and not c.keywords \
                         and _u(c.args[0]) == "payload.target" and _u(c.args[1]) == v \
-                        and _u(c.args[2]).startswith("self.get_storage(") and _u(c.args[3]) == "max_age":
+                        and (_u(c.args[2]).startswith("self.get_storage(") or _u(c.args[2]) in storage_names) \
+                        and _u(c.args[3]) == "max_age":
                     stores = max_age is not None
         elif isinstance(s, ast.Expr) and _u(s.value).startswith("self.ez_send(peer,StoreResponsePayload(payload.identifier"):
             responds = stores
@@ -544,8 +547,13 @@ def post_process_values(self, values):
 
 def _post_process(cls):
     fn = _fn(cls, "post_process_values", COMMUNITY)
+    variants = [REF_POST_PROCESS,
+                REF_POST_PROCESS.replace("unpacked = defaultdict(list)", "unpacked = {None: []}")
+                                .replace("unpacked[public_key].append(", "unpacked.setdefault(public_key, []).append("),
+                REF_POST_PROCESS.replace("return [*results, *((data[1], None) for data in unpacked[None])]",
+                                         "results.extend((data[1], None) for data in unpacked[None])\n    return results")]
     for pick in ("max", "min"):
-        if _same_up_to_renaming(fn, REF_POST_PROCESS.replace("PICK", pick)):
+        if any(_same_up_to_renaming(fn, v.replace("PICK", pick)) for v in variants):
             return ".maxVersion" if pick == "max" else ".minVersion"
     raise TranslatorError("post_process_values is not the recognised shape (group verified values by public key, one "
                           "max/min by version per key, then the unsigned values)")
@@ -577,6 +585,20 @@ def _store_on_nodes(cls, consts):
             inner = [x for x in st.body if not _is_log(x)]
             if len(inner) == 1 and _u(inner[0]) == f"self.add_value(key,{st.target.id},storage)":
                 loop = True
+    # the freshness test a received token must pass before it is presented
+    send_cmp = None
+    for st in ast.walk(fn):
+        if isinstance(st, ast.If) and isinstance(st.test, ast.BoolOp) and isinstance(st.test.op, ast.And) \
+                and len(st.test.values) == 2 and _u(st.test.values[0]) == "node.idinself.tokens" \
+                and isinstance(st.test.values[1], ast.Compare) and len(st.test.values[1].ops) == 1:
+            c = st.test.values[1]
+            if _u(c.left) == "self.tokens[node.id][0]+TOKEN_EXPIRATION_TIME" and _u(c.comparators[0]) == "now" \
+                    and type(c.ops[0]) in CMP and "StoreRequestPayload" in _u(st):
+                send_cmp = CMP[type(c.ops[0])]
+    if send_cmp is None:
+        raise TranslatorError("store_on_nodes: `if node.id in self.tokens and self.tokens[node.id][0] + "
+                              "TOKEN_EXPIRATION_TIME <cmp> now:` guarding the StoreRequest was not recognised")
+    NOTES["send_cmp"] = send_cmp
     if not loop:
         raise TranslatorError("store_on_nodes: the local `for value in reversed(values): self.add_value(key, value, storage)` "
                               "loop was not recognised")
@@ -598,6 +620,39 @@ def add_value(self, key, value, storage, max_age=MAX_ENTRY_AGE):
         id_ = hashlib.sha1(public_key).digest() if public_key else None
         storage.put(key, value, id_=id_, version=version, max_age=max_age)
 """
+
+
+def _find_request(cls, consts):
+    """on_find_request: the token in the answer is generate_token(<the requesting node>), where the requesting node comes from
+    get_requesting_node(peer) (the observed source, not an address named in the payload); the values come from
+    storage.get(payload.target, payload.offset[, limit])"""
+    fn = _role_rename(_fn(cls, "on_find_request", COMMUNITY), ["peer", "payload", "=node"])
+    body = _body(fn)
+    if not body or _u(body[0]) != "node=self.get_requesting_node(peer)":
+        raise TranslatorError("on_find_request does not start with node = self.get_requesting_node(peer)")
+    if len(body) < 2 or not (isinstance(body[1], ast.If) and _u(body[1].test) == "notnode" and _is_drop(body[1].body)):
+        raise TranslatorError("on_find_request: a blocked requester is not dropped right after get_requesting_node")
+    resp = [c for c in ast.walk(fn) if isinstance(c, ast.Call) and _u(c.func) == "FindResponsePayload"]
+    if len(resp) != 1 or len(resp[0].args) < 3 or _u(resp[0].args[0]) != "payload.identifier" \
+            or _u(resp[0].args[1]) != "self.generate_token(node)" or _u(resp[0].args[2]) != "values":
+        raise TranslatorError("on_find_request: the answer is not FindResponsePayload(payload.identifier, "
+                              "self.generate_token(<requesting node>), values, ...)")
+    if any(isinstance(x, ast.Assign) and any(_u(t) == "node" for t in x.targets) for x in body[1:]):
+        raise TranslatorError("on_find_request: the requesting node is reassigned before the token is generated")
+    gets = [c for c in ast.walk(fn) if isinstance(c, ast.Call) and _u(c.func) == "storage.get"]
+    if len(gets) != 1:
+        raise TranslatorError("on_find_request: expected exactly one storage.get(...)")
+    g = gets[0]
+    kw = {k.arg: k.value for k in g.keywords}
+    args = list(g.args) + [kw.get(n) for n in ["key", "starting_point", "limit"][len(g.args):]]
+    if len(args) != 3 or _u(args[0]) != "payload.target" or args[1] is None or _u(args[1]) != "payload.offset":
+        raise TranslatorError("on_find_request: storage.get is not called with (payload.target, payload.offset[, limit])")
+    limit = None
+    if args[2] is not None and not (isinstance(args[2], ast.Constant) and args[2].value is None):
+        if not (isinstance(args[2], ast.Name) and args[2].id == "MAX_VALUES_IN_FIND"):
+            raise TranslatorError("on_find_request: the limit of storage.get is not MAX_VALUES_IN_FIND")
+        limit = "maxValuesInFind"
+    return limit
 
 
 def _probe_clean():
@@ -683,8 +738,8 @@ def _storage():
         put_cmp = {"gt": "lt", "ge": "le", "lt": "gt", "le": "ge", "eq": "eq", "ne": "ne"}[op]
     else:
         raise TranslatorError("Storage.put: version comparison is not between new_value and old_value")
-    if cmps[0].orelse:
-        raise TranslatorError("Storage.put: version comparison has an else branch")
+    if cmps[0].orelse and not _is_drop(cmps[0].orelse):
+        raise TranslatorError("Storage.put: version comparison has an else branch that is not a bare return")
     # clean: reverse scan popping expired values (with or without the early break), or an equivalent filter
     cfn = _fn(sto, "clean", STORAGE)
     ref_scan = ("def clean(self):\n    for key in self.items:\n        for index, value in reversed(list(enumerate(self.items[key]))):\n"
@@ -715,6 +770,7 @@ def translate() -> tuple[str, dict]:
     pick = _post_process(dht)
     expired_cmp, put_cmp, stops = _storage()
     keep, cap = _store_on_nodes(dht, consts)
+    find_limit = _find_request(dht, consts)
     peer_guards = _store_peer_request(_cls(_parse(DISCOVERY), "DHTDiscoveryCommunity", DISCOVERY))
     L = ["/- GENERATED by tools/gen_dht.py from ipv8/dht/{community,storage,discovery,routing}.py — do not edit -/",
          "import Ipv8.C15.Basic", "", "namespace Ipv8.C15.Gen", "open Ipv8.C15", ""]
@@ -736,6 +792,10 @@ def translate() -> tuple[str, dict]:
           "/-- `store_on_nodes`: values kept for the local store / sent on: size filter `cmp len bound`, then at most `cap` -/",
           f"def localKeep : Option (Cmp × Nat) := {'some ' + keep if keep else 'none'}",
           f"def localCap : Option Nat := {'some ' + cap if cap else 'none'}",
+          "/-- `store_on_nodes` presents a received token only if `sendTokenCmp (ts + TOKEN_EXPIRATION_TIME) now` -/",
+          f"def sendTokenCmp : Cmp := .{NOTES['send_cmp']}",
+          "/-- `on_find_request`: the token is generated for the requesting node (source address and key); limit of storage.get -/",
+          f"def findLimit : Option Nat := {'some ' + find_limit if find_limit else 'none'}",
           "/-- per-signer pick of `post_process_values` -/",
           f"def lookupPick : Pick := {pick}",
           "/-- `Storage.put`: an existing value is replaced when `putCmp new.version old.version` -/",
